@@ -119,13 +119,14 @@ ReturnCore(q, err, vals, checkVersion) ==
   /\ \A v \in Rng(vals) : v = q
   /\ IF rq[q].st = "arrived"
      THEN \* never popped: only legal when the pool was (or became) cleared
-          /\ rq[q].wasCleared \/ cleared
+          /\ rq[q].wasCleared \/ cleared \/ pend.kind = "clear"
           /\ ~err
           /\ rq[q].ran = <<>>
           /\ rq' = [rq EXCEPT ![q].st = "returned"]
           /\ UNCHANGED <<holder, transit, dc>>
      ELSE /\ rq[q].st \in {"holding", "pushed"}
-          /\ err = rq[q].fail
+          \* when nothing ran (the targeted rule set is empty) error or not is unspecified
+          /\ DOMAIN rq[q].ran # {} => err = rq[q].fail
           /\ checkVersion => VersionOK(q)
           /\ rq' = [rq EXCEPT ![q].st = "returned"]
           /\ IF rq[q].st = "holding"
